@@ -23,9 +23,9 @@ def generate(T, tier):
         if any(s in T.field and T.field[s]["bias_src"] for s in names[2:]):
             cands.append((len(names), mod))
     failing = sorted(cands)[0][1] if cands else None
-    plan = [("msg1005", 0, "quick"), ("msg1230", 2, "thorough"), ("msg1008", 2, "thorough"), ("msg1004", 1, "thorough")]
+    plan = [("msg1005", 0, "thorough"), ("msg1230", 2, "thorough"), ("msg1008", 2, "thorough"), ("msg1004", 1, "thorough")]
     if failing:
-        plan.append((failing, 0, "quick"))
+        plan.append((failing, 0, "thorough"))
     for mod, n, t in plan:
         m = byvar[mod]
         cap = G.max_cap(mod)
@@ -49,6 +49,41 @@ def generate(T, tier):
 """ % (STUBS, mod, expr, m["variant"]))
         hs.append({"name": "c12::window_%s" % mod, "group": "stub", "tier": t,
                    "bounds": "%s (lists at %d): dirty 96-byte window x symbolic message: frame and final state == fresh builder (covers Ok and, where reachable, Err part-way)" % (mod, n)})
+    if failing:
+        m = byvar[failing]
+        code.append("""#[kani::proof]
+#[kani::unwind(1031)]
+%spub fn inv_partway() {
+    // a FRESH builder whose first build may fail after part of the body was written: afterwards the
+    // builder must be in a state from which the next call starts clean, i.e. the used-flag is up or
+    // the buffer is still exactly the fresh one (the precondition of L1 / L2 for the next call)
+    let m = %s;
+    let msg = Message::%s(m);
+    unsafe {
+        CRC_VAL = 0;
+    }
+    let mut b = MessageBuilder::new();
+    let failed = b.build_message(&msg).is_err();
+    let (d, has_run) = b.verif_raw();
+    assert!(d[0] == 0xD3);
+    if failed {
+        let mut clean = true;
+        let mut i = 1;
+        while i < 1029 {
+            if d[i] != 0 {
+                clean = false;
+            }
+            i += 1;
+        }
+        assert!(has_run || clean);
+        kani::cover!(!clean);
+    } else {
+        assert!(has_run);
+    }
+}
+""" % (STUBS, G.any_expr(failing, 0, "cand"), m["variant"]))
+        hs.append({"name": "c12::inv_partway", "group": "stub", "tier": "quick",
+                   "bounds": "fresh builder, symbolic %s (can fail with OutOfRange after earlier fields were written): afterwards has_run is set or the buffer is still fresh" % failing})
     m = byvar["msg1005"]
     code.append("""#[kani::proof]
 #[kani::unwind(1031)]
@@ -59,7 +94,7 @@ def generate(T, tier):
     same_as_fresh(fresh_bytes(), true, &msg);
 }
 """ % (STUBS, G.any_expr("msg1005", 0, "cand"), m["variant"]))
-    hs.append({"name": "c12::fresh_eq", "group": "stub", "tier": "quick", "bounds": "L2: fresh state with has_run = true vs MessageBuilder::new(), symbolic Msg1005"})
+    hs.append({"name": "c12::fresh_eq", "group": "stub", "tier": "thorough", "bounds": "L2: fresh state with has_run = true vs MessageBuilder::new(), symbolic Msg1005"})
     gen.write_gen("c12_list.rs", "\n".join(code))
     return {
         "harnesses": hs,
